@@ -121,6 +121,25 @@ def obs_str(g):
 A_, B_, C_ = "\x1e", "\x1d", "\x1c"
 
 
+def ambiguous_placeholders(g):
+    """two placeholder links over the same pair of segment ends (paths that state different overlaps for one edge
+    before any link is there): the library binds each path step to a link *object*, the model resolves a step to the
+    first stored link that fits - after one of the placeholders gives up its overlap the two can differ, so the
+    correspondence stops comparing such a state (the oracles still judge it)"""
+    seen = set()
+    try:
+        for l in g._gfa1_links:
+            if l.virtual:
+                k = frozenset([(str(l.from_name), "R" if l.from_orient == "+" else "L"),
+                               (str(l.to_name), "L" if l.to_orient == "+" else "R")])
+                if k in seen:
+                    return True
+                seen.add(k)
+    except Exception:
+        return False
+    return False
+
+
 def obs_flat(g):
     """Canonical observation in the flat layout the Lean model prints (GfaModel/GraphObs.lean `obs`).
     Only graph records (S L C P E G F O U and virtual unknowns) are included."""
